@@ -36,7 +36,7 @@ func (a Ary[LEN]) WriteTo(w io.Writer) (n int64, err error) {
 	}
 	Len := LEN(array.Len())
 	if nn, err := any(&Len).(FieldEncoder).WriteTo(w); err != nil {
-		return n, err
+		return nn, err
 	} else {
 		n += nn
 	}
@@ -260,10 +260,10 @@ type Tuple []any // FieldEncoder, FieldDecoder or both (Field)
 func (t Tuple) WriteTo(w io.Writer) (n int64, err error) {
 	for _, v := range t {
 		nn, err := v.(FieldEncoder).WriteTo(w)
+		n += nn // also what a failing field managed to write
 		if err != nil {
 			return n, err
 		}
-		n += nn
 	}
 	return
 }
@@ -272,10 +272,10 @@ func (t Tuple) WriteTo(w io.Writer) (n int64, err error) {
 func (t Tuple) ReadFrom(r io.Reader) (n int64, err error) {
 	for i, v := range t {
 		nn, err := v.(FieldDecoder).ReadFrom(r)
+		n += nn // also what a failing field consumed
 		if err != nil {
 			return n, fmt.Errorf("decode tuple[%d] %T error: %w", i, v, err)
 		}
-		n += nn
 	}
 	return
 }
